@@ -1376,3 +1376,70 @@ Proof.
   - intros zs Hzs. destruct zs as [|a [|b [|c [|d zs]]]]; try discriminate. reflexivity.
   - exact ex_trie3_wft.
 Qed.
+
+(* ------------------------------------------------------------ the laws at any depth *)
+(* the interpreter applies every operation through tmap_depth d (to each fiber at depth d of a tensor):
+   a round-trip law of one fiber lifts to the whole trie *)
+Fixpoint at_depth (d : nat) (P : trie -> Prop) (t : trie) : Prop :=
+  match d with
+  | O => P t
+  | S d' => exists l, t = TNode l /\ Forall (fun ct => at_depth d' P (snd ct)) l
+  end.
+
+Theorem tmap_depth_roundtrip (f g : trie -> option trie) (P : trie -> Prop) :
+  (forall t, P t -> exists t', f t = Some t' /\ g t' = Some t) ->
+  forall d t, at_depth d P t -> exists t', tmap_depth d f t = Some t' /\ tmap_depth d g t' = Some t.
+Proof.
+  intros Hfg. induction d as [|d IH]; intros t H; cbn [at_depth] in H; [apply Hfg; exact H|].
+  destruct H as [l [-> Hc]].
+  enough (G : exists l', tmap_depth (S d) f (TNode l) = Some (TNode l') /\ tmap_depth (S d) g (TNode l') = Some (TNode l))
+    by (destruct G as [l' G]; exists (TNode l'); exact G).
+  induction Hc as [|ct l Hct Hc IHl]; [exists []; split; reflexivity|].
+  destruct IHl as [l' [E1 E2]]. destruct (IH _ Hct) as [s' [F1 F2]]. destruct ct as [c s]. cbn [snd] in *.
+  exists ((c, s') :: l'). cbn [tmap_depth] in *. rewrite F1, F2.
+  split.
+  - destruct ((fix go (l0 : list (value * trie)) : option (list (value * trie)) :=
+                 match l0 with [] => Some [] | (c0, s0) :: l'0 =>
+                   match tmap_depth d f s0, go l'0 with Some s'0, Some r => Some ((c0, s'0) :: r) | _, _ => None end end) l) as [r|];
+      [injection E1 as ->; reflexivity|discriminate].
+  - destruct ((fix go (l0 : list (value * trie)) : option (list (value * trie)) :=
+                 match l0 with [] => Some [] | (c0, s0) :: l'0 =>
+                   match tmap_depth d g s0, go l'0 with Some s'0, Some r => Some ((c0, s'0) :: r) | _, _ => None end end) l') as [r|];
+      [injection E2 as ->; reflexivity|discriminate].
+Qed.
+
+Definition fiber_ok (P : list (value * trie) -> Prop) (t : trie) : Prop := exists l, t = TNode l /\ P l.
+
+(* splitUniform / splitEqual / splitNonUniform at depth d, then mergeRanks at depth d; flattenRanks then unflattenRanks *)
+Theorem split_uniform_merge1_depth d step t : 0 < step ->
+  at_depth d (fiber_ok (fun l => int_sorted l /\ nonneg_keys l)) t ->
+  exists t', tmap_depth d (split_uniform step 0 0) t = Some t' /\ tmap_depth d merge1 t' = Some t.
+Proof.
+  intros Hs. apply tmap_depth_roundtrip. intros t0 [l [-> [H1 H2]]]. apply split_uniform_merge1; assumption.
+Qed.
+
+Theorem split_equal_merge1_depth d n t : 0 < n -> at_depth d (fiber_ok int_sorted) t ->
+  exists t', tmap_depth d (split_equal n) t = Some t' /\ tmap_depth d merge1 t' = Some t.
+Proof.
+  intros Hn. apply tmap_depth_roundtrip. intros t0 [l [-> H1]]. apply split_equal_merge1; assumption.
+Qed.
+
+Theorem split_nonuniform_merge1_depth d zs t : StronglySorted Z.lt zs ->
+  at_depth d (fiber_ok (fun l => int_sorted l /\ match zs with b0 :: _ => forall ct, In ct l -> b0 <= kz ct | [] => l = [] end)) t ->
+  exists t', tmap_depth d (split_nonuniform (map VInt zs)) t = Some t' /\ tmap_depth d merge1 t' = Some t.
+Proof.
+  intros Hzs. apply tmap_depth_roundtrip. intros t0 [l [-> [H1 H2]]]. apply split_nonuniform_merge1; assumption.
+Qed.
+
+Theorem flatten1_unflatten1_depth d t : at_depth d (fiber_ok wf2) t ->
+  exists t', tmap_depth d flatten1 t = Some t' /\ tmap_depth d unflatten1 t' = Some t.
+Proof. apply tmap_depth_roundtrip. intros t0 [l [-> H1]]. apply flatten1_unflatten1; assumption. Qed.
+
+Example split_uniform_merge1_depth_ex :
+  exists t', tmap_depth 1 (split_uniform 3 0 0) (TNode [(VInt 2, TNode ex_fiber); (VInt 5, TNode [(VInt 8, ex_leaf 1)])]) = Some t' /\
+             tmap_depth 1 merge1 t' = Some (TNode [(VInt 2, TNode ex_fiber); (VInt 5, TNode [(VInt 8, ex_leaf 1)])]).
+Proof.
+  apply split_uniform_merge1_depth; [lia|]. eexists. split; [reflexivity|].
+  constructor; [exists ex_fiber; split; [reflexivity|split; [exact ex_fiber_sorted|exact ex_fiber_nonneg]]|].
+  constructor; [|constructor]. eexists. split; [reflexivity|]. split; [prove_int_sorted|repeat constructor; cbn; lia].
+Qed.
